@@ -42,6 +42,7 @@ package gff
 //@ func splitAnnot
 //@   property C03
 //@   throws
+//@   pure
 //@   ensures len(tag) <= len(f) && len(value) <= len(f)
 //@   loop 1 invariant 0 <= idx && idx <= len(f) && (idx > 0 ==> 0 <= i && i < len(f)) && (split ==> idx > 0)
 //@   loop 1 invariant len(tag) <= len(f)
@@ -49,5 +50,7 @@ package gff
 //@ func mustAtoa
 //@   property C03
 //@   throws
+//@   assigns fresh
 //@   requires 0 <= index && index < len(f)
-//@   loop 1 invariant 0 <= idx && idx <= len(c)
+//@   loop 1 invariant 0 <= idx && idx <= len(c) && fresh(a)
+//@   loop 1 writes fresh
